@@ -12,14 +12,19 @@
 package c17
 
 import (
+	"encoding/json"
 	"fmt"
 	"math/rand"
+	"os"
+	"path/filepath"
 	"regexp"
 	"runtime"
 	"sort"
+	"strconv"
 	"strings"
 	"sync"
 	"testing"
+	"time"
 
 	"github.com/thought-machine/please/src/core"
 
@@ -410,24 +415,22 @@ func noteKey(k string) {
 	keyMu.Unlock()
 }
 
-func checkSet(r *lib.Run, caseIdx, idx int, rng *rand.Rand, config bool, concReps int) {
-	d := genDefs(rng, config)
-	sr := &setRunner{r: r, idx: idx, d: d}
+// genSet generates the package set of one case. The rng is consumed in a fixed order so that the
+// parent process and the child that runs the concurrent phase build the same set.
+func genSet(rng *rand.Rand, config bool) (d defs, strs []string, pkgs []pkgSpec, srcs []string) {
+	d = genDefs(rng, config)
 	for _, s := range strList(rng, 3) {
-		sr.strs = append(sr.strs, s.(string))
+		strs = append(strs, s.(string))
 	}
-	observer := pkgSpec{Name: "obs"}
-
-	// --- packages ---
 	k := 2 + rng.Intn(3) // 2..4 including the observer
 	if config {
 		k = 2 + rng.Intn(2) // a fresh state per run is expensive
 	}
-	var pkgs []pkgSpec
 	n := 0
 	for j := 0; j < k-1; j++ {
 		p := pkgSpec{Name: fmt.Sprintf("p%d", j)}
-		for a := 0; a < 1+rng.Intn(4); a++ {
+		na := 1 + rng.Intn(4)
+		for a := 0; a < na; a++ {
 			n++
 			p.Attacks = append(p.Attacks, genAttack(rng, d, n))
 		}
@@ -440,11 +443,57 @@ func checkSet(r *lib.Run, caseIdx, idx int, rng *rand.Rand, config bool, concRep
 		}
 		pkgs = append(pkgs, p)
 	}
-	pkgs = append(pkgs, observer)
-	var srcs []string
+	pkgs = append(pkgs, pkgSpec{Name: "obs"})
 	for _, p := range pkgs {
 		srcs = append(srcs, p.source("//S:defs", config))
 	}
+	return
+}
+
+// A concDiff is one package result of the concurrent phase that differs from the alone result.
+type concDiff struct {
+	Pkg   string `json:"pkg"`
+	Alone string `json:"alone"`
+	Here  string `json:"here"`
+}
+
+type concResult struct {
+	Rounds int        `json:"rounds"`
+	Parsed int        `json:"parsed"`
+	Diffs  []concDiff `json:"diffs"`
+}
+
+// runConcurrentPhase is executed in a child process (concurrent mutation of a shared dict is a
+// fatal Go error that would otherwise end the whole run).
+func runConcurrentPhase(r *lib.Run, idx int, rng *rand.Rand, config bool, reps int) concResult {
+	d, strs, pkgs, _ := genSet(rng, config)
+	sr := &setRunner{r: r, idx: idx, d: d, strs: strs}
+	alone := make([]string, len(pkgs))
+	for i, p := range pkgs {
+		alone[i] = sr.sequential([]pkgSpec{p})[0]
+	}
+	var out concResult
+	for rep := 0; rep < reps; rep++ {
+		res := sr.concurrent(pkgs, rng)
+		out.Rounds++
+		out.Parsed += 2 * len(pkgs)
+		for j := range pkgs {
+			for c := 0; c < 2; c++ {
+				if res[j][c] != alone[j] && len(out.Diffs) < 4 {
+					out.Diffs = append(out.Diffs, concDiff{pkgs[j].Name, alone[j], res[j][c]})
+				}
+			}
+		}
+	}
+	return out
+}
+
+var fatalRe = regexp.MustCompile(`(?m)^(fatal error: .*|panic: .*)$`)
+
+func checkSet(r *lib.Run, stream string, caseIdx, idx int, rng *rand.Rand, config bool, concReps int) {
+	d, strs, pkgs, srcs := genSet(rng, config)
+	sr := &setRunner{r: r, idx: idx, d: d, strs: strs}
+	observer := pkgs[len(pkgs)-1]
 	nontrivial := false
 	for _, p := range pkgs {
 		for _, a := range p.Attacks {
@@ -458,9 +507,14 @@ func checkSet(r *lib.Run, caseIdx, idx int, rng *rand.Rand, config bool, concRep
 		r.Sample(map[string]any{"build_defs": d.Text, "packages": srcs})
 	}
 
+	t0 := time.Now()
+	lap := func(name string) {
+		r.Obs("ms_"+name, time.Since(t0).Milliseconds())
+		t0 = time.Now()
+	}
 	// --- (0) every attack alone against the observer: minimal witnesses, specific keys ---
 	obsAlone := sr.sequential([]pkgSpec{observer})[0]
-	if strings.Contains(obsAlone, "err=") && !strings.Contains(obsAlone, "err=\n") {
+	if !strings.Contains(obsAlone, "err=\n") {
 		r.Violation("harness/observer-fails", "the pure observer package does not evaluate: "+clip(obsAlone), map[string]any{"build_defs": d.Text}, caseIdx)
 		return
 	}
@@ -498,7 +552,7 @@ func checkSet(r *lib.Run, caseIdx, idx int, rng *rand.Rand, config bool, concRep
 			if a.Path != "alias" && a.Path != "in-function" && !a.Target.Dict && a.Writer != "append" {
 				// first find out whether the target is writable through a plain alias at all
 				if _, done := unprotected[a.Target.Expr]; !done {
-					plain := mkAttack(rng, a.Target, 900, 0, 0)
+					plain := mkAttack(nil, a.Target, 900, 0, 0)
 					p2 := pkgSpec{Name: "atk", Attacks: []attack{plain}}
 					res := sr.sequential([]pkgSpec{p2, observer})
 					unprotected[a.Target.Expr] = res[1] != obsAlone
@@ -510,6 +564,7 @@ func checkSet(r *lib.Run, caseIdx, idx int, rng *rand.Rand, config bool, concRep
 		}
 	}
 
+	lap("probes")
 	// --- (1) alone ---
 	alone := make([]string, len(pkgs))
 	for i, p := range pkgs {
@@ -545,29 +600,78 @@ func checkSet(r *lib.Run, caseIdx, idx int, rng *rand.Rand, config bool, concRep
 				map[string]any{"build_defs": d.Text, "packages": srcs, "order": perm, "victim": pkgs[j].Name, "alone": alone[j], "here": res[i]}, caseIdx)
 		}
 	}
-	// --- (3) concurrently ---
-	for rep := 0; rep < concReps; rep++ {
-		res := sr.concurrent(pkgs, rng)
-		r.Obs("concurrent_rounds", 1)
-		for j := range pkgs {
-			for c := 0; c < 2; c++ {
-				if res[j][c] == alone[j] {
-					continue
-				}
-				r.Obs("concurrency_dependent_results", 1)
-				if anyGuilty {
-					continue
-				}
-				key := "concurrent-only/unclassified"
-				noteKey(key)
-				r.Violation(key, fmt.Sprintf("package %s evaluates differently when parsed concurrently with the others than alone (%s)", pkgs[j].Name, firstDiff(alone[j], res[j][c])),
-					map[string]any{"build_defs": d.Text, "packages": srcs, "victim": pkgs[j].Name, "alone": alone[j], "here": res[j][c]}, caseIdx)
-			}
+	lap("orders")
+	// --- (3) concurrently, in a child process ---
+	outFile := filepath.Join(r.Scratch(), fmt.Sprintf("conc.%s.%d.json", stream, caseIdx))
+	cfg := "0"
+	if config {
+		cfg = "1"
+	}
+	res := lib.Child("TestC17Child", []string{
+		"C17_STREAM=" + stream, fmt.Sprint("C17_CASE=", caseIdx), fmt.Sprint("C17_IDX=", idx), "C17_CONFIG=" + cfg,
+		fmt.Sprint("C17_REPS=", concReps), "C17_OUT=" + outFile, "C17_DIR=" + filepath.Join(r.Scratch(), fmt.Sprintf("child.%s.%d", stream, caseIdx)),
+		"VERIF_REPLAY=",
+	}, 10*time.Minute)
+	r.Obs("concurrent_children", 1)
+	lap("child")
+	var cr concResult
+	b, err := os.ReadFile(outFile)
+	os.Remove(outFile)
+	if err != nil || json.Unmarshal(b, &cr) != nil {
+		if res.TimedOut {
+			r.Inconclusive(fmt.Sprintf("concurrent phase of %s/%d did not finish within the watchdog", stream, caseIdx))
+			return
 		}
+		msg := "no verdict"
+		if m := fatalRe.FindString(res.Stderr + "\n" + res.Stdout); m != "" {
+			msg = m
+		}
+		class := regexp.MustCompile(`[^a-z]+`).ReplaceAllString(strings.ToLower(strings.TrimPrefix(msg, "fatal error: ")), "-")
+		if len(class) > 60 {
+			class = class[:60]
+		}
+		key := "concurrent-crash/" + strings.Trim(class, "-")
+		noteKey(key)
+		r.Obs("concurrent_crashes", 1)
+		tail := res.Stderr
+		if len(tail) > 5000 {
+			tail = tail[:5000]
+		}
+		r.Violation(key, "parsing the packages of this set concurrently kills the process: "+msg,
+			map[string]any{"build_defs": d.Text, "packages": srcs, "exit": res.Exit, "signal": res.Signal, "stderr_head": tail}, caseIdx)
+		return
+	}
+	r.Obs("concurrent_rounds", int64(cr.Rounds))
+	r.Obs("packages_parsed_concurrently", int64(cr.Parsed))
+	for _, df := range cr.Diffs {
+		r.Obs("concurrency_dependent_results", 1)
+		if anyGuilty {
+			continue
+		}
+		key := "concurrent-only/unclassified"
+		noteKey(key)
+		r.Violation(key, fmt.Sprintf("package %s evaluates differently when parsed concurrently with the others than alone (%s)", df.Pkg, firstDiff(df.Alone, df.Here)),
+			map[string]any{"build_defs": d.Text, "packages": srcs, "victim": df.Pkg, "alone": df.Alone, "here": df.Here}, caseIdx)
 	}
 }
 
-var aspFrame = regexp.MustCompile(`please/src/parse/asp\.([A-Za-z0-9_.()*]+)`)
+// TestC17Child runs the concurrent phase of one case (see checkSet).
+func TestC17Child(t *testing.T) {
+	if !lib.IsChild() {
+		t.Skip("child of TestC17 only")
+	}
+	r := lib.Start("C17") // only for the case PRNG; never finished, writes nothing
+	atoi := func(k string) int { n, _ := strconv.Atoi(os.Getenv(k)); return n }
+	asplib.Init(os.Getenv("C17_DIR"))
+	stream, caseIdx := os.Getenv("C17_STREAM"), atoi("C17_CASE")
+	out := runConcurrentPhase(r, atoi("C17_IDX"), r.Rand(stream, caseIdx), os.Getenv("C17_CONFIG") == "1", atoi("C17_REPS"))
+	b, _ := json.Marshal(out)
+	if err := os.WriteFile(os.Getenv("C17_OUT"), b, 0o644); err != nil {
+		t.Fatal(err)
+	}
+}
+
+var aspFrame = regexp.MustCompile(`^\s+github\.com/thought-machine/please/src/parse/asp\.([^\s(]+|\(\*[A-Za-z0-9_]+\)\.[^\s(]+)\(`)
 
 // collectRaces turns race reports with frames in src/parse/asp into violations keyed by the asp
 // functions that perform the racing writes (the frame pairs themselves vary with the schedule and
@@ -631,11 +735,11 @@ func TestC17(t *testing.T) {
 		"concurrency verdicts never depend on timing: a difference is a violation whenever it is observed, silence is not proof",
 	}
 	conc := r.Pick(6, 20)
-	r.ForEach("sets", asplib.Dev(r.Pick(150, 10000)), 8, func(i int, rng *rand.Rand) {
-		checkSet(r, i, i, rng, false, conc)
+	r.ForEach("sets", asplib.Dev(r.Pick(60, 2500)), 8, func(i int, rng *rand.Rand) {
+		checkSet(r, "sets", i, i, rng, false, conc)
 	})
-	r.ForEach("config-sets", asplib.Dev(r.Pick(24, 1000)), 8, func(i int, rng *rand.Rand) {
-		checkSet(r, i, 1000000+i, rng, true, 2)
+	r.ForEach("config-sets", asplib.Dev(r.Pick(8, 300)), 8, func(i int, rng *rand.Rand) {
+		checkSet(r, "config-sets", i, 1000000+i, rng, true, 2)
 	})
 	collectRaces(r)
 	keyMu.Lock()
@@ -646,5 +750,5 @@ func TestC17(t *testing.T) {
 	keyMu.Unlock()
 	sort.Strings(keys)
 	r.Extra("violation_keys_seen", keys)
-	r.RequireObserved("single_attack_probes", "orders_checked", "concurrent_rounds", "attacks_accepted_by_interpreter", "attacks_rejected_by_interpreter")
+	r.RequireObserved("single_attack_probes", "orders_checked", "concurrent_rounds", "packages_parsed_concurrently", "attacks_accepted_by_interpreter", "attacks_rejected_by_interpreter")
 }
